@@ -96,7 +96,7 @@ def check_expr(run: core.Run, prop: str, e: E, envs, truth, stats) -> None:
             run.fail(core.Failure(key + "|is_empty", f"{e.show()} reports is_empty() but an environment satisfies it", rep))
         if m.is_any() and not all(truth(env) in (True, None) for env in envs):
             run.fail(core.Failure(key + "|is_any", f"{e.show()} reports is_any() but an environment falsifies it", rep))
-        if stats["evals"] < stats["eval_budget"]:
+        if stats["evals"] < stats["eval_budget"] and mk.model_evaluable(e.leaves()):
             for env in envs[:3]:
                 stats["evals"] += 1
                 run.add(core.Case("C02.eval", "m.eval\t" + e.tokens() + "\t" + enc_env(env), enc_T3(ev(m, env))))
@@ -177,6 +177,16 @@ def single_layer_pools(tier):
         X, Y = full.split(".")[:2]
         envs.append({"python_full_version": full, "python_version": f"{X}.{Y}"})
     pools.append(("python_version", pool, envs))
+    # bounds one and two minors apart, with and without a patch level: what the rendering heuristics of the specifier
+    # view (`!=X.Y.*`, `==X.Y.*`, `~=`) look at when two atoms are merged into one (seeds C11b, C14b)
+    lad = [f'python_full_version < "{v}"' for v in ("3.6.0", "3.7", "3.8.0")] + \
+          [f'python_full_version >= "{v}"' for v in ("3.7.0", "3.7.2", "3.8.0", "3.9", "3.9.1")] + \
+          ['python_full_version == "3.7.*"', 'python_full_version != "3.7.*"', 'python_version not in "3.7, 3.8"']
+    lenvs = []
+    for full in ["3.5.9", "3.6.0", "3.6.5", "3.7.0", "3.7.1", "3.7.2", "3.7.9", "3.8.0", "3.8.1", "3.9.0", "3.9.1", "3.9.2", "3.10.0"]:
+        X, Y = full.split(".")[:2]
+        lenvs.append({"python_full_version": full, "python_version": f"{X}.{Y}"})
+    pools.append(("python_full_version", lad, lenvs))
     return pools
 
 
@@ -191,7 +201,9 @@ def run_single_layer(run: core.Run, stats) -> None:
         for t in pool:
             parsed[t] = mk.parse_marker(t)
         truth = {t: {id(env): ev(parsed[t], env) for env in envs} for t in pool}
-        for a, b in itertools.product(pool, pool):
+        for idx, (a, b) in enumerate(itertools.product(pool, pool)):
+            if not run.mine(idx):
+                continue
             for kind, comb in (("and", lambda x, y: x and y), ("or", lambda x, y: x or y)):
                 def tr(env, comb=comb, a=a, b=b):
                     x, y = truth[a][id(env)], truth[b][id(env)]
@@ -204,8 +216,10 @@ def run_single_layer(run: core.Run, stats) -> None:
 def run_c02(run: core.Run, n: int) -> None:
     stats = {"timeouts": 0, "oracle": 0, "evals": 0, "eval_budget": n}
     run_single_layer(run, stats)
-    run_d4a(run, "C02", stats)
-    run_pv3(run, stats)
+    if run.first:
+        run_d4a(run, "C02", stats)
+        run_g3(run, "C02", stats)
+        run_pv3(run, stats)
     for i in range(n // 6):
         for e in complement_exprs(run.rng):
             if e.kind in ("and", "or"):
@@ -266,6 +280,41 @@ def run_d4a(run: core.Run, prop: str, stats) -> None:
                 run.fail(f)
 
 
+def run_g3(run: core.Run, prop: str, stats) -> None:
+    """targeted stream for known finding G3: pre-/post-release interpreters (outside the environments of the theorems,
+    `EnvTotal.verFinal`; inside the property's quantifier)"""
+    for a, b, kind, full in mk.G3_CASES:
+        X, Y = full.split(".")[:2]
+        env = {"python_full_version": full, "python_version": f"{X}.{Y}", "platform_release": "5.10", "implementation_version": full,
+               "platform_version": "#1", "extra": set(), "extras": set(), "dependency_groups": set()}
+        for k, v in mk.STR_VARS.items():
+            env[k] = v[0]
+        if prop == "C02":
+            x, y = mk.parse_marker(a), mk.parse_marker(b)
+            comb = (lambda p, q: p and q) if kind == "and" else (lambda p, q: p or q)
+            e = E(kind, E("leaf", a), E("leaf", b))
+            out, m = out_of(e.run)
+            run.add(core.Case("C02.expr", "m.expr\t" + e.tokens(), out, " " in out, ctx=e))
+            want, got = comb(ev(x, env), ev(y, env)), ev(m, env)
+            stats["oracle"] += 1
+            if got != want:
+                f = core.Failure("expr|" + e.show() + "|" + enc_env(env), f"{e.show()} = {m!r} evaluates to {got} on {full} where the "
+                                 f"operands give {want}", {"op": "expr", "expr": e.to_json(),
+                                                           "env": {k: (sorted(v) if isinstance(v, set) else v) for k, v in env.items()}})
+                f.family = mk.known_family([a, b], env)
+                run.fail(f)
+        else:
+            text = f"{a} {kind} {b}"
+            m = mk.parse_marker(text)
+            want, got = PkgMarker(text).evaluate(pkg_env(env)), ev(m, env)
+            stats["oracle"] += 1
+            if got != want:
+                f = core.Failure("eval|" + text + "|" + enc_env(env), f"parse_marker({text!r}).evaluate = {got} on {full}, packaging says {want}",
+                                 {"op": "eval", "text": text, "env": {k: (sorted(v) if isinstance(v, set) else v) for k, v in env.items()}})
+                f.family = mk.known_family([text], env)
+                run.fail(f)
+
+
 def run_pv3(run: core.Run, stats) -> None:
     """python_version atoms whose operand has a trailing `.0` segment, merged with python_full_version atoms"""
     for a, b, full in mk.PV3_PAIRS:
@@ -292,7 +341,9 @@ def pkg_env(env):
 def run_c03(run: core.Run, n: int) -> None:
     rng = run.rng
     stats = {"timeouts": 0, "oracle": 0}
-    run_d4a(run, "C03", stats)
+    if run.first:
+        run_d4a(run, "C03", stats)
+        run_g3(run, "C03", stats)
     for _ in range(n):
         text = mk.marker_text(rng, rng.choice([0, 1, 2, 3]))
         envs = mk.envs_for([text], rng, 10)
@@ -315,7 +366,7 @@ def run_c03(run: core.Run, n: int) -> None:
             except Exception:  # noqa: BLE001
                 continue
             got = ev(m, denv) if "extras" not in text and "dependency_groups" not in text else evaluate_lock(m, denv)
-            if i < 3:
+            if i < 3 and mk.model_evaluable([text]):
                 run.add(core.Case("C03.eval", "m.eval\t" + mk.leaf_tokens(text) + "\t" + enc_env(denv), enc_T3(got)))
             if got != want:
                 f = core.Failure("eval|" + text + "|" + enc_env(denv), f"parse_marker({text!r}).evaluate = {got}, packaging says {want}",
@@ -337,23 +388,57 @@ def evaluate_lock(m, env):
         return "raise:" + type(e).__name__
 
 
+def factored_base(rng):
+    """operands whose `|` factors out a common atom, so that the CNF candidate wins: a conjunction with a nested
+    union, the shape parse_marker/& never produce on their own (seed C12b: exclude() shortcut on such markers)"""
+    A, B, C = mk.atom(rng, "noextras"), mk.atom(rng), mk.atom(rng)
+    L = lambda x: E("leaf", x)  # noqa: E731
+    k = rng.random()
+    if k < 0.5:
+        return E("or", L(f"{A} and {B}"), L(f"{A} and {C}"))
+    if k < 0.75:
+        return E("or", L(f"{A} and {B} and {mk.atom(rng)}"), L(f"{A} and {C}"))
+    return E("or", E("or", L(f"{A} and {B}"), L(f"{A} and {C}")), L(mk.atom(rng)))
+
+
+def grouped_base(rng):
+    """markers containing a grouped atom (EqualityMarkerUnion / InequalityMultiMarker: >= 2 values on one string variable),
+    alone and next to another atom (seed C12: only() on a group whose variable is not requested)"""
+    var = rng.choice(list(mk.STR_VARS))
+    vals = rng.sample(mk.STR_VARS[var], 3 if len(mk.STR_VARS[var]) >= 3 and rng.random() < 0.3 else 2)
+    g = rng.choice([" or ".join(f'{var} == "{v}"' for v in vals), " and ".join(f'{var} != "{v}"' for v in vals)])
+    k = rng.random()
+    if k < 0.3:
+        return E("leaf", g)
+    if k < 0.65:
+        return E("leaf", f"({g}) and {mk.atom(rng)}")
+    return E("leaf", f"({g}) or {mk.atom(rng)}")
+
+
 def run_c12(run: core.Run, n: int) -> None:
     rng = run.rng
     stats = {"timeouts": 0, "oracle": 0, "evals": 0, "eval_budget": 0}
-    for _ in range(n):
-        text = mk.marker_text(rng, rng.choice([1, 2, 3]))
+    for it in range(n):
+        if it % 3 == 2:
+            base = factored_base(rng)
+        elif it % 3 == 1:
+            base = grouped_base(rng)
+        else:
+            base = E("leaf", mk.marker_text(rng, rng.choice([1, 2, 3])))
         try:
-            m = timed(lambda: mk.parse_marker(text))
+            m = timed(base.run)
         except Timeout:
             stats["timeouts"] += 1
             continue
+        except Exception:  # noqa: BLE001
+            continue
         vs = sorted(variables(m))
-        envs = mk.envs_for([text], rng, 16)
+        envs = mk.envs_for(base.leaves(), rng, 16)
         tm = {id(env): ev(m, env) for env in envs}
         subsets = [tuple(s) for k in range(0, min(3, len(vs)) + 1) for s in itertools.combinations(vs, k)]
         rng.shuffle(subsets)
         for names in subsets[:6]:
-            e = E("only", E("leaf", text), names)
+            e = E("only", base, names)
             out, r = out_of(e.run)
             if out == "timeout":
                 stats["timeouts"] += 1
@@ -374,8 +459,8 @@ def run_c12(run: core.Run, n: int) -> None:
                 if set(vs) <= set(names) and x != y:
                     run.fail(core.Failure("only-same|" + e.show(), f"{e.show()} changed the meaning although all variables were kept", rep))
                     break
-        for name in vs[:3] + ["extra", "os_name"]:
-            e = E("exclude", E("leaf", text), name)
+        for name in vs[:3] + ([vs[-1]] if len(vs) > 3 else []) + ["extra", "os_name"]:
+            e = E("exclude", base, name)
             out, r = out_of(e.run)
             if out == "timeout":
                 stats["timeouts"] += 1
@@ -400,16 +485,19 @@ def run_c12(run: core.Run, n: int) -> None:
     run.extra.update(time_budget_skips=stats["timeouts"], oracle_evaluations=stats["oracle"])
 
 
-def raw_tree(rng, depth):
-    """a tree built with the class constructors (no normalisation): not-in-normal-form shapes"""
+def raw_tree(rng, depth, atoms=None):
+    """a tree built with the class constructors (no normalisation): not-in-normal-form shapes; the leaves come
+    from a small per-tree pool so that equal children meet (across spliced-in same-kind compounds too)"""
+    if atoms is None:
+        atoms = [mk.atom(rng) for _ in range(rng.choice([2, 3, 4, 6]))]
     r = rng.random()
     if depth == 0 or r < 0.35:
         if r < 0.06:
             return E("empty")
         if r < 0.10:
             return E("any")
-        return E("leaf", mk.atom(rng))
-    kids = [raw_tree(rng, depth - 1) for _ in range(rng.choice([0, 1, 2, 2, 3]))]
+        return E("leaf", rng.choice(atoms))
+    kids = [raw_tree(rng, depth - 1, atoms) for _ in range(rng.choice([0, 1, 2, 2, 3]))]
     return E("rawand" if rng.random() < 0.5 else "rawor", *kids)
 
 
@@ -421,7 +509,7 @@ def run_raw(run: core.Run, prop: str, n: int) -> None:
     """constructor-built (possibly not-in-normal-form) operands: correspondence only — the
     property does not quantify over them, the model's theorems do"""
     rng = run.rng
-    exprs = [NONNF_WITNESS]
+    exprs = [NONNF_WITNESS] if run.first else []
     for _ in range(n):
         t = raw_tree(rng, rng.choice([1, 2, 3]))
         k = rng.random()
@@ -463,6 +551,11 @@ def complement_exprs(rng):
            L(f"({a} or {s_}) and ({na} or {s_})"), L(f"({a} or {s_} or {t_}) and ({na} or {s_})"),
            E("and", L(f"({a} and {s_}) or {na}"), L(s_)), E("or", L(f"({a} or {s_}) and {na}"), L(s_)),
            E("or", L(f"{a} and {s_}"), L(f"{na} and {s_}")), E("and", L(f"{a} or {s_}"), L(f"{na} or {s_}")),
+           # two unions sharing a direct child, their conjunctions carrying complementary atoms: the raw
+           # `MarkerUnion(*markers)` candidate of union() wins on complexity (seed C15b: flatten_items without dedup)
+           E("or", L(f"({t_} and {a}) or {s_}"), L(f"{s_} or ({mk.atom(rng)} and {na})")),
+           E("or", L(f"{s_} or ({t_} and ({a} or {mk.atom(rng)}))"), L(f"{s_} or {na}")),
+           E("and", L(f"({t_} or {a}) and {s_}"), L(f"{s_} and ({mk.atom(rng)} or {na})")),
            E("exclude", L(f'({a} and {s_} and extra == "x") or ({na} and {s_})'), "extra"),
            E("only", L(f'({a} and {s_} and os_name == "zz") or ({na} and {s_})'), tuple(sorted(variables(mk.parse_marker(f"{a} and {na} and {s_}")))))]
     return out
@@ -479,7 +572,10 @@ def run_shape(run: core.Run, prop: str, n: int) -> None:
         envs = mk.envs_for([a, b], rng, 8) if prop == "C07" else []
         exprs = [E("leaf", a), E("and", E("leaf", a), E("leaf", b)), E("or", E("leaf", a), E("leaf", b))]
         if i % 3 == 0:
-            vs = sorted(variables(mk.parse_marker(a))) or ["os_name"]
+            try:
+                vs = sorted(variables(timed(lambda: mk.parse_marker(a)))) or ["os_name"]
+            except Exception:  # noqa: BLE001  (exponential cnf/dnf: over the budget)
+                vs = ["os_name"]
             exprs.append(E("only", E("leaf", a), tuple(rng.sample(vs, min(len(vs), rng.randint(1, 2))))))
             exprs.append(E("exclude", E("leaf", a), rng.choice(vs + ["extra"])))
             exprs.append(E("or", E("and", E("leaf", a), E("leaf", b)), E("leaf", mk.atom(rng))))
@@ -507,6 +603,9 @@ def run_shape(run: core.Run, prop: str, n: int) -> None:
     run.extra.update(time_budget_skips=stats["timeouts"], oracle_evaluations=stats["oracle"])
 
 
+SHARDED = ("C02", "C03", "C07", "C12", "C15")   # thorough tier runs these over worker processes (harness/check.py)
+
+
 def run_prop(prop: str, run: core.Run) -> None:
     quick = run.tier == "quick"
     run.assumptions = ["atoms are the well-defined PEP 508 classes of the statement; environments give python_version as "
@@ -518,19 +617,19 @@ def run_prop(prop: str, run: core.Run) -> None:
                     "operators (exhaustive over the pools); plus random marker pairs (depth <= 2, 2-3 children) over the "
                     "well-defined atom classes; compared structurally with the model and judged by evaluate() on environments "
                     "derived from the literals")
-        run_c02(run, 700 if quick else 12000)
+        run_c02(run, 700 if quick else run.size(24000))
     elif prop == "C03":
         run.rule = "random marker texts (depth <= 3) x literal-derived environments; parse_marker(text).evaluate vs packaging"
-        run_c03(run, 1200 if quick else 20000)
+        run_c03(run, 1200 if quick else run.size(60000))
     elif prop == "C12":
         run.rule = "random markers x subsets of their variables for only(), each variable and absent ones for exclude()"
-        run_c12(run, 300 if quick else 5000)
-        run_raw(run, prop, 300 if quick else 6000)
+        run_c12(run, 300 if quick else run.size(8000))
+        run_raw(run, prop, 300 if quick else run.size(8000))
     else:
         run.rule = "every result of parse, &, |, only, exclude over random markers, plus Empty/Any operands"
-        run_shape(run, prop, 260 if quick else 2500)
+        run_shape(run, prop, 260 if quick else run.size(6000))
         if prop == "C15":
-            run_raw(run, prop, 300 if quick else 2500)
+            run_raw(run, prop, 300 if quick else run.size(6000))
 
 
 def wide_envs(texts, rng):
@@ -602,6 +701,22 @@ def replay(data: dict) -> bool:
             return True
         if not is_nf(m):
             return True
+        if e.kind in ("only", "exclude"):
+            base = e.args[0].run()
+            if e.kind == "exclude" and e.args[1] in variables(m):
+                return True
+            if e.kind == "only" and not variables(m) <= set(e.args[1]):
+                return True
+            import random
+            for env in mk.envs_for(e.leaves(), random.Random(0), 120):
+                x, y = ev(base, env), ev(m, env)
+                if e.kind == "only" and x is True and y is not True:
+                    return True
+                if e.kind == "only" and variables(base) <= set(e.args[1]) and x != y:
+                    return True
+                if e.kind == "exclude" and e.args[1] not in variables(base) and x != y:
+                    return True
+            return False
         if "env" in r and e.kind in ("and", "or"):
             env = {k: (set(v) if isinstance(v, list) else v) for k, v in r["env"].items()}
             x, y = ev(e.args[0].run(), env), ev(e.args[1].run(), env)
@@ -614,5 +729,9 @@ def replay(data: dict) -> bool:
             want = PkgMarker(r["text"]).evaluate(pkg_env(env))
         except Exception:  # noqa: BLE001
             return False
-        return ev(mk.parse_marker(r["text"]), env) != want
+        try:
+            m = mk.parse_marker(r["text"])
+        except Exception:  # noqa: BLE001  (parse_marker raising on a valid marker is the failure)
+            return True
+        return ev(m, env) != want
     return True
